@@ -45,6 +45,18 @@ QHA_ATTRS = {
     "desired_pressures_gpa": PDES / U.UNIT_TABLE["GPa"],
     "v_tp_bohr3": VTP / U.bohr ** 3,
 }
+# the settings dictionary the qha Calculator was constructed with (cij hands it qha.settings + the user's qha.settings section):
+# numeric entries are atoms; the option-like entries are enumerated by the rules that depend on them (qha_settings(energy_unit=...))
+PMIN_S, DP_S, NTV_S, NT_S, DT_S, TMIN_S = sp.symbols("SET_P_MIN SET_DELTA_P SET_NTV SET_NT SET_DT SET_T_MIN", **P)
+
+
+def qha_settings(energy_unit="ry", **over):
+    from .sym import DictV
+    d = {"energy_unit": energy_unit, "length_unit": "angstrom", "order": sp.Integer(3), "P_MIN": PMIN_S, "DELTA_P": DP_S, "NTV": NTV_S, "NT": NT_S,
+         "DT": DT_S, "T_MIN": TMIN_S, "DT_SAMPLE": sp.Symbol("SET_DT_SAMPLE", **P), "DELTA_P_SAMPLE": sp.Symbol("SET_DELTA_P_SAMPLE", **P),
+         "static_only": False, "volume_ratio": sp.Symbol("SET_VOLUME_RATIO", **P), "high_verbosity": False}
+    d.update(over)
+    return DictV(d)
 
 
 def voigt_canon(digits: str) -> str:
@@ -239,6 +251,7 @@ def physics_seeds(model: Model, pstat_atom=True):
     }
     for k, v in QHA_ATTRS.items():
         seeds[(QHA_EXT, k)] = v
+    seeds[(QHA_EXT, "settings")] = qha_settings()
     if pstat_atom:
         seeds[(CALC, "static_p_array")] = PSTAT / (U.Ry / U.bohr ** 3)
     intr = {
